@@ -14,13 +14,19 @@ FB = 'singlecellmultiomics/bamProcessing/bamFunctions.py'
 OK = 'Reached end. All ok!'
 
 
-def fault(eng, label):
-    """every external step may fail: nondeterministic exception at this call"""
+def fault(eng, label, content=True):
+    """every external step may fail: nondeterministic exception at this call (content=False: a clean-up step whose failure
+    leaves the output as complete as it was)"""
     if eng.ghost.get('no_faults'):       # units of other properties that reuse these stubs without failure injection
         return
     b = fresh(BOOL, 'fails_' + label)
     if eng.branch(b.z):
         eng.ghost.setdefault('faults', []).append(label)
+        if content:
+            eng.ghost.setdefault('content_faults', []).append(label)
+        # an error of the step, or the process being interrupted there (SIGINT arrives as KeyboardInterrupt - no Exception)
+        if eng.branch(fresh(BOOL, 'interrupted_at_' + label).z):
+            raise PyRaise('KeyboardInterrupt', 'interrupted at ' + label)
         raise PyRaise('Exception', 'injected failure at ' + label)
 
 
@@ -32,8 +38,12 @@ def monitor(eng, node, fr):
         done = all(g.get(k) for k in g.get('needs', ()))
         eng.check('monitor.success_status_implies_finalized_output', bool(done), kind='monitor',
                   info={'line': getattr(node, 'lineno', None), 'missing': [k for k in g.get('needs', ()) if not g.get(k)]})
+        # ... and a complete one: no step of this run failed or was interrupted before the success status was written
+        eng.check('monitor.success_status_only_after_a_run_without_failed_or_interrupted_steps', not g.get('content_faults'), kind='monitor',
+                  info={'line': getattr(node, 'lineno', None), 'failed_steps': list(g.get('content_faults', []))})
     else:
         eng.check('monitor.success_status_implies_finalized_output', True, kind='monitor')
+        eng.check('monitor.success_status_only_after_a_run_without_failed_or_interrupted_steps', True, kind='monitor')
 
 
 def common_setup(eng, needs):
@@ -131,7 +141,7 @@ single = Contract(
                                              'consensus_model_args': {}}),
     setup=single_setup,
     loops={0: LoopSpec(inv={}, types={'read_groups': 'frame', 'rgid': 'frame', 'fragment': 'frame'})},
-    raises={'Exception': 'True'},
+    raises={'Exception': 'True', 'KeyboardInterrupt': 'True'},
     assumptions=['every external step (opening, molecule iteration, tag writing, record writing, closing, read-group header '
                  'rewrite, sort, index, the status write itself) may raise at any call: exceptions stand for failures and '
                  'kills at step boundaries; a kill inside one external call is not modelled',
@@ -190,6 +200,47 @@ def single_replay(inputs, clause):
             if status == OK and not complete:
                 failed.append({'clause': 'monitor.success_status_implies_finalized_output', 'injected_failure': step,
                                'status_file': status, 'output_complete': complete})
+        # an error / an interruption (SIGINT) while the 20th molecule is tagged: the run is not complete, whatever is on disk
+        mol_mod = importlib.import_module('singlecellmultiomics.molecule.molecule')
+        with pysam.AlignmentFile(src) as f:
+            n_in = sum(1 for _ in f.fetch(until_eof=True))
+        for exc in (RuntimeError, KeyboardInterrupt):
+            out = os.path.join(d, 'out_%s.bam' % exc.__name__)
+            real_wt = mol_mod.Molecule.write_tags
+            state = {'n': 0}
+
+            def wt(self_, *a, **k):
+                state['n'] += 1
+                if state['n'] == 20:
+                    raise exc('injected while tagging molecule 20')
+                return real_wt(self_, *a, **k)
+            mol_mod.Molecule.write_tags = wt
+            err = None
+            devnull = open(os.devnull, 'w')
+            so, se = sys.stdout, sys.stderr
+            sys.stdout = sys.stderr = devnull
+            try:
+                mod.run_multiome_tagging_cmd([src, '-method', 'nla', '-o', out])
+            except BaseException as e:      # noqa
+                err = type(e).__name__
+            finally:
+                sys.stdout, sys.stderr = so, se
+                devnull.close()
+                mol_mod.Molecule.write_tags = real_wt
+            status_path = out.replace('.bam', '.status.txt')
+            status = open(status_path).read().strip() if os.path.exists(status_path) else None
+            n_out = None
+            if os.path.exists(out):
+                try:
+                    with pysam.AlignmentFile(out) as f:
+                        n_out = sum(1 for _ in f.fetch(until_eof=True))
+                except Exception:      # noqa: BLE001
+                    n_out = -1
+            results.append({'injected': '%s while tagging molecule 20' % exc.__name__, 'pipeline_raised': err, 'status_file': status,
+                            'records_in': n_in, 'records_out': n_out})
+            if status == OK and n_out != n_in:
+                failed.append({'clause': 'monitor.success_status_only_after_a_run_without_failed_or_interrupted_steps',
+                               'injected': exc.__name__, 'status_file': status, 'records_in': n_in, 'records_out': n_out})
     finally:
         shutil.rmtree(d, ignore_errors=True)
     obs = {'outcome': 'return', 'value': results}
@@ -221,7 +272,7 @@ def multi_setup(eng):
         fault(e, 'index')
         e.ghost['indexed'] = True
     eng.loader.call_hooks['singlecellmultiomics.bamProcessing.bamFunctions.merge_bams'] = merge_bams
-    externals.EXTRA['shutil.rmtree'] = lambda e, a, k, n: fault(e, 'rmtree')
+    externals.EXTRA['shutil.rmtree'] = lambda e, a, k, n: fault(e, 'rmtree', content=False)
     externals.EXTRA['time.sleep'] = lambda e, a, k, n: None
     pool = Obj('Pool', {})
     pool.vc_immutable = True
@@ -235,7 +286,7 @@ multi = Contract(
     params={'use_pool': 'bool', 'workers': lambda eng, name: eng.spec_env.get('POOL'), 'tagged_bam_generator': ('const', ('a.bam',)),
             'out_bam_path': ('const', 'out.bam'), 'n_threads': 'none', 'temp_folder': ('const', '/tmp/x')},
     setup=multi_setup,
-    raises={'Exception': 'True'},
+    raises={'Exception': 'True', 'KeyboardInterrupt': 'True'},
     assumptions=['merge_bams merges and indexes (assumed contract, each step may fail); everything before the tail can only '
                  'raise (no status write precedes it - checked syntactically by the block selector)'],
 )
@@ -271,7 +322,7 @@ worker = Contract(
     params={'args': ('const', (('in.bam', '/tmp/x', None), [{'contig': 'a'}, {'contig': 'b'}]))},
     setup=worker_setup,
     ensures={'normal_return_means_no_task_failed': 'GHOST["task_failed"] == False'},
-    raises={'Exception': 'True'},
+    raises={'Exception': 'True', 'KeyboardInterrupt': 'True'},
     bounded=None,
     assumptions=['two tasks per job (the loop is unrolled: the claim is about exception propagation through the real '
                  'sorted_bam_file context manager and the real try/except of run_tagging_tasks, not about task counts)'],
@@ -363,7 +414,7 @@ sort_and_index = Contract(
         'unsorted_input_is_removed_only_after_success': 'not GHOST["removed_before_done"]',
         'no_more_sort_attempts_than_temp_locations': 'GHOST["sort_calls"] <= 3',
     },
-    raises={'Exception': 'True'},
+    raises={'Exception': 'True', 'KeyboardInterrupt': 'True'},
     assumptions=['pysam.sort / pysam.index / os.remove may raise at every call; a failed sort leaves no usable output file '
                  '(a partial or stale file at the output path is not a sorted output)'],
 )
@@ -472,7 +523,7 @@ prologue = Contract(
     block=prologue_block,
     params={'args': prologue_args},
     setup=prologue_setup,
-    raises={'Exception': 'True'},
+    raises={'Exception': 'True', 'KeyboardInterrupt': 'True'},
     assumptions=['an earlier successful run left the success marker and a complete output; verify_and_fix_bam, the status '
                  'write and os.remove may fail at every call; the input is a BAM file'],
 )
@@ -542,7 +593,7 @@ merge_bams = Contract(
         'every_part_is_merged': 'GHOST["merged_inputs"] == list(BAMS0)',
         'parts_are_removed_only_after_that': 'not GHOST["removed_before_done"]',
     },
-    raises={'Exception': 'True'},
+    raises={'Exception': 'True', 'KeyboardInterrupt': 'True'},
     assumptions=['pysam.merge / pysam.index / shutil.move / os.remove may fail at every call; no samtools binary on the PATH (the '
                  'pysam.merge branch); the parts are indexed'],
 )
@@ -596,3 +647,124 @@ def merge_bams_replay(inputs, clause):
 merge_bams.replay = merge_bams_replay
 merge_bams.pre_state = lambda eng, fr: eng.spec_env.update({'BAMS0': list(fr.env['bams'])})
 UNITS.append(merge_bams)
+
+
+# ------------------------------------------------------------------------------ replace_bam_header (pysam mode): the re-headered copy
+# The read-group header rewrite copies every record of the unsorted output into a new file and moves it over the original
+# before the sort.  It returns normally only after a complete copy was moved into place; whenever a copy that is not complete
+# is moved into place it must not return normally (the pipeline would sort, index and report a truncated file).
+def rehead_setup(eng):
+    eng.monitor = None
+    eng.ghost = {'written': 0, 'moved_with': None, 'out_closed': False}
+    eng.spec_env['GHOST'] = eng.ghost
+    E = externals.EXTRA
+    N = 3
+
+    def opener(e, a, k, n):
+        fault(e, 'open')
+        if len(a) > 1 and 'w' in str(a[1]):
+            o = Obj('CopyWriter', {})
+        else:
+            o = Obj('CopyReader', {})
+        o.vc_immutable = True
+        return o
+
+    def write(e, o, rec):
+        fault(e, 'write')
+        e.ghost['written'] += 1
+
+    def close_w(e, o, *a):
+        e.ghost['out_closed'] = True
+    stubs.STUBS['CopyWriter'] = {'methods': {'write': write, '__enter__': lambda e, o: o, '__exit__': close_w, 'close': close_w},
+                                 'props': {}, 'setters': {}}
+    stubs.STUBS['CopyReader'] = {'methods': {'__enter__': lambda e, o: o, '__exit__': lambda e, o, *a: None,
+                                             '__iter__': lambda e, o: ['rec%d' % i for i in range(N)]}, 'props': {}, 'setters': {}}
+
+    def rename(e, a, k, n):
+        fault(e, 'rename')
+        e.ghost['moved_with'] = e.ghost['written']
+    E['pysam.AlignmentFile'] = opener
+    E['os.rename'] = rename
+    E['os.path.exists'] = lambda e, a, k, n: True
+    E['shutil.which'] = lambda e, a, k, n: None
+    eng.spec_env['N'] = N
+
+
+replace_header = Contract(
+    PROP, FB + '::replace_bam_header', name='replace_bam_header[pysam mode: 3 records, every step may fail]',
+    params={'origin_bam_path': ('const', 'out.bam.unsorted.bam'), 'header': ('const', {'HD': {}}), 'target_bam_path': 'none',
+            'header_write_mode': ('const', 'pysam')},
+    cases=[{}, {'header_write_mode': ('const', 'auto')}],
+    setup=rehead_setup,
+    ensures={
+        'returns_only_after_a_complete_copy_was_moved_into_place': 'GHOST["moved_with"] == N and not GHOST.get("content_faults")',
+    },
+    raises={'Exception': 'True', 'KeyboardInterrupt': 'True'},
+    bounded='3 records; open / write / rename may each fail or be interrupted',
+    assumptions=['pysam.AlignmentFile writer/reader and os.rename through stubs (A4); no samtools binary (pysam branch)'],
+)
+UNITS.append(replace_header)
+
+
+def replace_header_replay(inputs, clause):
+    """real replace_bam_header(header_write_mode='pysam') on a real BAM of 5 records with the second record write failing: it
+    must raise, or leave the original in place"""
+    import os
+    import shutil
+    import tempfile
+    import pysam
+    from pyvc.contract import import_real
+    fn = import_real(FB, 'replace_bam_header')
+    mod = __import__('singlecellmultiomics.bamProcessing.bamFunctions', fromlist=['x'])
+    d = tempfile.mkdtemp(prefix='c20h_')
+    real_af = pysam.AlignmentFile
+    try:
+        header = pysam.AlignmentHeader.from_dict({'HD': {'VN': '1.6'}, 'SQ': [{'SN': 'chr1', 'LN': 1000}]})
+        p = os.path.join(d, 'x.bam')
+        with real_af(p, 'wb', header=header) as o:
+            for i in range(5):
+                a = pysam.AlignedSegment(header)
+                a.query_name, a.query_sequence, a.flag = 'r%d' % i, 'ACGT', 4
+                a.query_qualities = pysam.qualitystring_to_array('IIII')
+                o.write(a)
+
+        class FailingWriter:
+            def __init__(self, inner):
+                self.inner, self.n = inner, 0
+
+            def __enter__(self):
+                return self
+
+            def __exit__(self, *a):
+                self.inner.close()
+
+            def write(self, r):
+                self.n += 1
+                if self.n == 2:
+                    raise OSError('injected: disk full')
+                return self.inner.write(r)
+
+        def af(path, mode='r', *a, **k):
+            h = real_af(path, mode, *a, **k)
+            return FailingWriter(h) if 'w' in mode else h
+        mod.pysam.AlignmentFile = af
+        try:
+            raised = None
+            try:
+                fn(p, header.to_dict(), header_write_mode='pysam')
+            except Exception as e:      # noqa: BLE001
+                raised = '%s: %s' % (type(e).__name__, e)
+        finally:
+            mod.pysam.AlignmentFile = real_af
+        with real_af(p, check_sq=False) as f:
+            n = sum(1 for _ in f.fetch(until_eof=True))
+        obs = {'outcome': 'raise' if raised else 'return', 'value': {'raised': raised, 'records_at_the_target_path': n, 'records_in': 5}}
+        if raised is None and n != 5:
+            return {'status': 'confirmed', 'observed': obs, 'failed': [{'clause': clause}]}
+        return {'status': 'not-reproduced', 'observed': obs}
+    finally:
+        pysam.AlignmentFile = real_af
+        shutil.rmtree(d, ignore_errors=True)
+
+
+replace_header.replay = replace_header_replay
